@@ -228,7 +228,7 @@ def main():
     json.dump(m, open(os.path.join(VERIF, "MANIFEST.json"), "w"), indent=1)
     print("MANIFEST: %d checks, %d not_applicable" % (len(checks), len(na)))
 
-HOOK_COMMITS = ["5d44ef1"]
+HOOK_COMMITS = ["5d44ef1", "ead5f6c"]
 
 if __name__ == "__main__":
     main()
